@@ -9,6 +9,9 @@ poly1   V = -a T^4 + D (T^2 - T0^2) phi^2 - E T phi^3 + lam phi^4/4
         symmetric phase phi=0 (minimum for T>T0), broken phase phi_+(T) (exists for T<T1)
 poly2   V = -a T^4 + (-muh2 + ch T^2) h^2/2 + lh h^4/4 + (-mus2 + cs T^2) S^2/2 + ls S^4/4
             + lhs h^2 S^2/4          two-step: (0,S) -> (h,0)
+poly2f  V = -a T^4 + l1 (u^2-v^2)^2/4 + kap (u^2-v^2) p^2 + D (T^2-T0^2) p^2 - E T p^3 + lam p^4/4
+        two fields of different natural scale (v >> p or v << p(T=0)): (v,0) -> valley point
+        (u(p_+), p_+(T)), which ends in a *fold* at T1 (poly1 closed forms at lamEff)
 bag1    V = -a T^4 + U(phi),  U = m2 phi^2/2 - k phi^3/3 + lam phi^4/4   (T-independent
         field part; exact bag equation of state)
 
@@ -245,6 +248,120 @@ class Poly2(PolyPotentialBase):
         return math.sqrt(max(float(self.h2(Tn)), float(self.S2(Tn)), 1e-300))
 
 
+class Poly2F(PolyPotentialBase):
+    """Two fields (u, p) with *different natural scales* and a fold end (C11 hierarchical
+    field-scale workload):
+
+        V = -a T^4 + l1/4 (u^2 - v^2)^2 + kap (u^2 - v^2) p^2
+            + D (T^2 - T0^2) p^2 - E T p^3 + lam p^4/4
+
+    dV/du = 0 off the axis u = 0 gives the valley u^2 = v^2 - 2 kap p^2 / l1, on which V is
+    the poly1 potential in p with lamEff = lam - 4 kap^2/l1.  Since V_uu = 2 l1 u^2 > 0 on the
+    valley, a valley point is a minimum of V exactly when p is a minimum of the reduced
+    potential (Schur complement).  Hence
+        high  (v, 0)                     minimum for T > T0   (transcritical exchange at T0)
+        low   (u(p_+(T)), p_+(T))        minimum for T < T1   (fold at T1)
+    with p_+/-, T1, T_c the poly1 closed forms at lamEff.  The model is only built for
+    parameters with u^2 > 0 along the low branch down to T = 0 (checked in __init__)."""
+    fieldCount = 2
+
+    def __init__(self, a, l1, v, kap, D, E, lam, T0=1.0, s=1.0, perm=None, signs=None,
+                 shift=None):
+        self.a, self.l1, self.kap = float(a), float(l1), float(kap)
+        self.D, self.E, self.lam = float(D), float(E), float(lam)
+        self.s = float(s)
+        self.v, self.T0 = float(v) * self.s, float(T0) * self.s
+        self.lamEff = self.lam - 4 * self.kap ** 2 / self.l1
+        if not self.lamEff > 0:
+            raise ValueError("Poly2F: lamEff <= 0")
+        self._setup_affine(2, perm, signs, shift)
+        tt = np.linspace(0.0, self.T1(), 257) if math.isfinite(self.T1()) else np.array([0.0])
+        if not np.all(self.v ** 2 - 2 * self.kap * self.phi_broken(tt) ** 2 / self.l1
+                      > 0.25 * self.v ** 2):
+            raise ValueError("Poly2F: valley leaves u^2 > v^2/4 on the low branch")
+
+    # ---- polynomial and its analytic derivatives (oracle side)
+    def V_phys(self, phi, T):
+        u, p = phi[..., 0], phi[..., 1]
+        w = u ** 2 - self.v ** 2
+        return (-self.a * T ** 4 + 0.25 * self.l1 * w ** 2 + self.kap * w * p ** 2
+                + self.D * (T ** 2 - self.T0 ** 2) * p ** 2 - self.E * T * p ** 3
+                + 0.25 * self.lam * p ** 4)
+
+    def dVdT_phys(self, phi, T):
+        p = phi[..., 1]
+        return -4 * self.a * T ** 3 + 2 * self.D * T * p ** 2 - self.E * p ** 3
+
+    def grad_phys(self, phi, T):
+        u, p = phi[..., 0], phi[..., 1]
+        w = u ** 2 - self.v ** 2
+        gu = self.l1 * w * u + 2 * self.kap * u * p ** 2
+        gp = (2 * self.kap * w * p + 2 * self.D * (T ** 2 - self.T0 ** 2) * p
+              - 3 * self.E * T * p ** 2 + self.lam * p ** 3)
+        return np.stack([gu, gp], axis=-1)
+
+    def hess_phys(self, phi, T):
+        u, p = phi[..., 0], phi[..., 1]
+        w = u ** 2 - self.v ** 2
+        uu = self.l1 * (w + 2 * u ** 2) + 2 * self.kap * p ** 2 + 0 * T
+        pp = (2 * self.kap * w + 2 * self.D * (T ** 2 - self.T0 ** 2) - 6 * self.E * T * p
+              + 3 * self.lam * p ** 2)
+        up = 4 * self.kap * u * p + 0 * T
+        return np.stack([np.stack([uu, up], axis=-1), np.stack([up, pp], axis=-1)], axis=-2)
+
+    # ---- closed forms (poly1 at lamEff on the valley)
+    def T1(self):
+        d = 8 * self.lamEff * self.D - 9 * self.E ** 2
+        return self.T0 * math.sqrt(8 * self.lamEff * self.D / d) if d > 0 else math.inf
+
+    def Tc(self):
+        d = self.lamEff * self.D - self.E ** 2
+        return self.T0 * math.sqrt(self.lamEff * self.D / d) if d > 0 else math.inf
+
+    def _disc(self, T):
+        return 9 * self.E ** 2 * T ** 2 - 8 * self.lamEff * self.D * (T ** 2 - self.T0 ** 2)
+
+    def phi_broken(self, T):
+        T = np.asarray(T, dtype=float)
+        return (3 * self.E * T + np.sqrt(np.maximum(self._disc(T), 0.0))) / (2 * self.lamEff)
+
+    def phi_minus(self, T):
+        T = np.asarray(T, dtype=float)
+        return (3 * self.E * T - np.sqrt(np.maximum(self._disc(T), 0.0))) / (2 * self.lamEff)
+
+    def u_valley(self, p):
+        return np.sqrt(np.maximum(self.v ** 2 - 2 * self.kap * np.asarray(p) ** 2 / self.l1, 0.0))
+
+    def low_point(self, T):
+        p = self.phi_broken(T)
+        return np.stack([self.u_valley(p), p], axis=-1)
+
+    def phases(self, T):
+        out = {"high": None, "low": None}
+        if T > self.T0:
+            out["high"] = np.array([self.v, 0.0])
+        if T < self.T1():
+            out["low"] = np.asarray(self.low_point(float(T)))
+        return out
+
+    def exists(self, phase):
+        return (self.T0, math.inf) if phase == "high" else (0.0, self.T1())
+
+    def V_phase(self, phase, T):
+        T = np.asarray(T, dtype=float)
+        if phase == "high":
+            return -self.a * T ** 4
+        return self.V_phys(self.low_point(T), T)
+
+    def field_scale(self, Tn):
+        """Scale of the field that distinguishes the phases (p); see field_scales."""
+        return float(self.phi_broken(Tn))
+
+    def field_scales(self, Tn):
+        """Natural per-field scales in *physical* order (u, p)."""
+        return np.array([self.v, float(self.phi_broken(Tn))])
+
+
 class Bag1(PolyPotentialBase):
     """Field part independent of T: minima at 0 and v = (k + sqrt(k^2-4 lam m2))/(2 lam)."""
     fieldCount = 1
@@ -346,6 +463,9 @@ def build_potential(spec):
     if fam == "poly2":
         return Poly2(spec["a"], spec["muh2"], spec["ch"], spec["lh"], spec["mus2"], spec["cs"],
                      spec["ls"], spec["lhs"], s, **kw)
+    if fam == "poly2f":
+        return Poly2F(spec["a"], spec["l1"], spec["v"], spec["kap"], spec["D"], spec["E"],
+                      spec["lam"], spec.get("T0", 1.0), s, **kw)
     if fam == "bag1":
         return Bag1(spec["a"], spec["m2"], spec["k"], spec["lam"], s, **kw)
     raise ValueError(fam)
